@@ -45,12 +45,14 @@ Inductive dstate :=
   | DPS (m : psef) (xs : list N) (itpos : N)
   | DWM (m : wavelet) (k : bkind) (xs : list N) (itpos : N)
   | DBroad
+  | DBig (m : bitvec) (bit : bool)       (* large from_bit vector: no spec list is materialised *)
   | DSer (inner : dstate) (t : ty) (v : val) (bytes : list N) (sz : N).   (* cached serialization *)
 
 (* ---------------- serialization ops, shared by all kinds ---------------- *)
 Definition st_val (st : dstate) : option (ty * val) :=
   match st with
   | DBitVec m _ _ _ _ => Some (ty_BitVector, v_bitvec m)
+  | DBig m _ => Some (ty_BitVector, v_bitvec m)
   | DR9 m _ => Some (ty_Rank9Sel, v_r9sel m)
   | DDA m _ => Some (ty_DArray, v_darray m)
   | DSA m _ => Some (ty_SArray, v_sarray m)
@@ -98,6 +100,7 @@ Definition bound_ok (st : dstate) (bytes : N) : bool :=
   let B := 8 * bytes in
   match st with
   | DBitVec m _ _ _ _ => B <=? round64 (bv_len m) + 256
+  | DBig m _ => B <=? round64 (bv_len m) + 256
   | DCV m _ _ => B <=? round64 (cv_len m * cv_width m) + 256
   | DR9 m s => 100 * B <=? 132 * lenN s + 204800
   | DDA m s =>
@@ -596,6 +599,9 @@ Definition init (c : cfg) (kind : N) (args : list N) (data : list (list N)) : ds
       | Ok None => (DNone, RErr, sp)
       | Ok (Some m) => (DWM m k ws 0, ROk, sp) end
   | 11 => (DBroad, ROk, SExact ROk)
+  | 13 => (* BitVector::from_bit(bit, len), large *)
+      match from_bit c (nz (arg args 0)) (arg args 1) with
+      | Panic => bad | Ok m => (DBig m (nz (arg args 0)), ROk, SExact ROk) end
   | 12 => (* EliasFano::from_bits *)
       let sp := SExact (if (bvlen =? 0) || (BitSpec.count true (bits tt) =? 0) then RErr else ROk) in
       match ef_from_bits c bv with
@@ -645,4 +651,13 @@ Definition step (c : cfg) (st : dstate) (code : N) (args : list N) (data : list 
   | DPS m xs itpos => step_ps c m xs itpos code args
   | DWM m k xs itpos => step_wm c m k xs itpos code args data
   | DBroad => let '(r, sp) := step_broad c code args in (st, r, sp)
+  | DBig m bit =>
+      (* a constant vector: bit i = bit for i < len; rank1 i = (if bit then i else 0) for i <= len *)
+      let a0 := arg args 0 in
+      match code with
+      | 11 => (st, rv_optbool (get_bit c m a0), SExact (if a0 <? bv_len m then RBool bit else RNone))
+      | 14 => (st, match (x <- r9_new c m ;; r9_rank1 c x a0) with Panic => RPanic | Ok None => RNone | Ok (Some r) => RNum r end,
+               SExact (if a0 <=? bv_len m then RNum (if bit then a0 else 0) else RNone))
+      | _ => (st, RPanic, SAny)
+      end
   end.
